@@ -112,7 +112,7 @@ def _extra(ctx, spec):
 
 PROP = dict(
     level='proof',
-    regen=['filedefs', 'listenerfacts'],
+    regen=['filedefs'],
     theorems=['Fit.C15.C15_pool_inv', 'Fit.C15.C15_op_result_indep_of_pool', 'Fit.C15.C15_actions_commute',
               'Fit.C15.C15_non_interference_prefix', 'Fit.C15.C15_non_interference', 'Fit.C15.C15_no_conflict_partial',
               'Fit.C15.C15_KF1_witness'],
